@@ -84,3 +84,85 @@ Fixpoint spec_vread_loop (w : N) (fuel : nat) (i acc : N) (l : list byte) : vspe
   end.
 Definition spec_vread (w : N) (l : list byte) : vspec :=
   spec_vread_loop w (N.to_nat (varint_max_len w)) 0 0 l.
+
+(* ---- reference decoder: what wire-format.md prescribes for every input, arithmetically ---- *)
+Definition vspec_res (v : vspec) : res (N * list byte) :=
+  match v with
+  | VsOk n r => Ok (n, r)
+  | VsEnd => Err DeserializeUnexpectedEnd
+  | VsBad => Err DeserializeBadVarint
+  end.
+Definition sd_varint (w : N) (l : list byte) : res (N * list byte) := vspec_res (spec_vread w l).
+Definition sd_byte (l : list byte) : res (byte * list byte) :=
+  match l with [] => Err DeserializeUnexpectedEnd | b :: r => Ok (b, r) end.
+Definition sd_take (n : N) (l : list byte) : res (list byte * list byte) :=
+  if N.of_nat (length l) <? n then Err DeserializeUnexpectedEnd
+  else Ok (firstn (N.to_nat n) l, skipn (N.to_nat n) l).
+Definition ik_width (k : ikind) : N :=
+  match k with I8 | U8 => 8 | I16 | U16 => 16 | I32 | U32 => 32 | I64 | U64 => 64 | I128 | U128 => 128 end.
+
+Definition sd_int (k : ikind) (l : list byte) : res (value * list byte) :=
+  match k with
+  | U8 => let* '(b, r) := sd_byte l in Ok (VInt U8 (Z.of_N b), r)
+  | I8 => let* '(b, r) := sd_byte l in
+          Ok (VInt I8 (if b <? 128 then Z.of_N b else (Z.of_N b - 256)%Z), r)
+  | U16 | U32 | U64 | U128 => let* '(n, r) := sd_varint (ik_width k) l in Ok (VInt k (Z.of_N n), r)
+  | I16 | I32 | I64 | I128 => let* '(n, r) := sd_varint (ik_width k) l in Ok (VInt k (spec_unzigzag n), r)
+  end.
+
+Section SpecFields.
+  Variable sd : ty -> list byte -> res (value * list byte).
+  Fixpoint sd_fields (ts : list ty) (l : list byte) : res (list value * list byte) :=
+    match ts with
+    | [] => Ok ([], l)
+    | t :: ts' => let* '(v, l1) := sd t l in let* '(vs, l2) := sd_fields ts' l1 in Ok (v :: vs, l2)
+    end.
+End SpecFields.
+
+Fixpoint spec_de (t : ty) (l : list byte) {struct t} : res (value * list byte) :=
+  match t with
+  | TBool => let* '(b, r) := sd_byte l in
+             if b =? 0 then Ok (VBool false, r) else if b =? 1 then Ok (VBool true, r)
+             else Err DeserializeBadBool
+  | TInt k => sd_int k l
+  | TF32 => let* '(bs, r) := sd_take 4 l in Ok (VF32 (of_le_bytes bs), r)
+  | TF64 => let* '(bs, r) := sd_take 8 l in Ok (VF64 (of_le_bytes bs), r)
+  | TChar => let* '(n, r) := sd_varint 64 l in
+             if 4 <? n then Err DeserializeBadChar
+             else let* '(bs, r2) := sd_take n r in
+                  match utf8_chars bs with Some [c] => Ok (VChar c, r2) | _ => Err DeserializeBadChar end
+  | TStr => let* '(n, r) := sd_varint 64 l in
+            let* '(bs, r2) := sd_take n r in
+            if utf8_valid bs then Ok (VStr bs, r2) else Err DeserializeBadUtf8
+  | TBytes => let* '(n, r) := sd_varint 64 l in
+              let* '(bs, r2) := sd_take n r in Ok (VBytes bs, r2)
+  | TOption t' => let* '(b, r) := sd_byte l in
+                  if b =? 0 then Ok (VNone, r)
+                  else if b =? 1 then (let* '(v, r2) := spec_de t' r in Ok (VSome v, r2))
+                  else Err DeserializeBadOption
+  | TUnit => Ok (VUnit, l)
+  | TUnitStruct => Ok (VUnitStruct, l)
+  | TNewtype t' => let* '(v, r) := spec_de t' l in Ok (VNewtype v, r)
+  | TSeq t' => let* '(n, r) := sd_varint 64 l in
+               let* '(racc, r2) := iter_N (fun st => let* '(v, s') := spec_de t' (snd st) in Ok (v :: fst st, s'))
+                                          n ([], r) in
+               Ok (VSeq (rev racc), r2)
+  | TTuple ts => let* '(vs, r) := sd_fields spec_de ts l in Ok (VTuple vs, r)
+  | TTupleStruct ts => let* '(vs, r) := sd_fields spec_de ts l in Ok (VTupleStruct vs, r)
+  | TStruct ts => let* '(vs, r) := sd_fields spec_de ts l in Ok (VStruct vs, r)
+  | TMap tk tv => let* '(n, r) := sd_varint 64 l in
+                  let* '(racc, r2) := iter_N (fun st => let* '(k, s') := spec_de tk (snd st) in
+                                                        let* '(v, s'') := spec_de tv s' in
+                                                        Ok ((k, v) :: fst st, s''))
+                                             n ([], r) in
+                  Ok (VMap (rev racc), r2)
+  | TEnum vs => let* '(idx, r) := sd_varint 32 l in
+                if N.of_nat (length vs) <=? idx then Err SerdeDeCustom   (* not a declared variant *)
+                else
+                  (fix pick (vs : list ty) (i : nat) : res (value * list byte) :=
+                     match vs, i with
+                     | [], _ => Err SerdeDeCustom
+                     | t' :: _, O => let* '(v, r2) := spec_de t' r in Ok (VVariant idx v, r2)
+                     | _ :: vs', S i' => pick vs' i'
+                     end) vs (N.to_nat idx)
+  end.
